@@ -1066,6 +1066,434 @@ def vm_crosscheck(ctx, sample):
 # =============================================================================================
 # run
 # =============================================================================================
+# =============================================================================================
+# overlapping API calls (Model/SubsConc.v): the accessory answers each request only when the schedule says so
+# =============================================================================================
+# schedule = list of actions on ONE live pairing:
+#   ["A", l]                      register plain listener l
+#   ["start", tag, "S"|"U", ids]  create_task(pairing.subscribe(ids) / unsubscribe(ids)) - ids is a LIST, its order is kept
+#   ["ans", reply]                the accessory answers the (single) outstanding request: ["o"] | ["s", rows] |
+#                                 ["d", fin|reset|malformed] | ["x", code]
+#   ["drop", how]                 the accessory drops the session (outstanding and queued requests are cut off)
+#   ["up"]                        the connector establishes a new secure session (its re-subscribe requests wait for "ans")
+#   ["ev", rows]                  the accessory sends an EVENT (possibly between a request and its response)
+#   ["drain"]                     answer 204 until nothing is outstanding
+def run_impl_conc(sched):
+    import ipsim
+    import simacc
+    import vloop
+    logging.disable(logging.CRITICAL)
+    steps, sessions, pending, tasks = [], [], [], {}
+    cur = {}
+    maxpend = [0]
+
+    def handler(ep, method, target, body):
+        st = cur["st"]
+        if method != "PUT" or target != "/characteristics":
+            st["anomalies"].append(f"unexpected-request {method} {target}")
+            return simacc.http_response(204)
+        rows = json.loads(body)["characteristics"]
+        ids = [(r["aid"], r["iid"]) for r in rows]
+        evs = sorted({bool(r["ev"]) for r in rows})
+        if len({a for a, _ in ids}) != 1 or len(evs) != 1:
+            st["anomalies"].append("mixed-request")
+        pending.append((ep, evs[0], ids))
+        outstanding = [x for x in pending if x[0] is ep]
+        maxpend[0] = max(maxpend[0], len(outstanding))
+        if len(outstanding) > 1:
+            st["anomalies"].append(f"requests-overlap {len(outstanding)} outstanding on one session")
+        return None
+
+    def answer(st, rep):
+        if not pending:
+            return
+        ep, ev, ids = pending.pop(0)
+        st["puts"].append([ev, [list(c) for c in ids], rep[0], ep.sid])
+        if rep[0] == "o":
+            ep.send_secure(simacc.http_response(204))
+        elif rep[0] == "s":
+            b = json.dumps({"characteristics": [{"aid": a, "iid": i, "status": s_} for a, i, s_ in rep[1]]}).encode()
+            ep.send_secure(simacc.http_response(207, b, reason="Multi-Status"))
+        elif rep[0] == "x":
+            ep.send_secure(simacc.http_response(int(rep[1]), b'{"status":-70410}', reason="Bad Request"))
+        elif rep[1] == "fin":
+            ep.tr.peer_fin()
+        elif rep[1] == "reset":
+            ep.tr.peer_reset()
+        else:
+            ep.send_secure(simacc.http_response(207, b'{"characteristics": [', reason="Multi-Status"))
+
+    async def main(loop):
+        from aiohomekit.exceptions import AccessoryDisconnectedError
+        net = vloop.Net(loop, [])
+
+        def factory(tr):
+            ep = simacc.SimEndpoint(net, tr, "ok", handler=handler)
+            ep.sid = len(sessions)
+            sessions.append(ep)
+            return ep
+        net.endpoint_factory = factory
+        undo1, undo2 = net.install(), simacc.install_fake_verify()
+        try:
+            p = ipsim.make_pairing(["10.0.0.1"])
+
+            async def api(tag, coro):
+                try:
+                    r = await coro
+                    res = "none" if r is None else ("dict" if isinstance(r, dict) else "other-value")
+                except AccessoryDisconnectedError:
+                    res = "raised"
+                except Exception as e:  # noqa
+                    res = "other:" + type(e).__name__
+                cur["st"]["rets"][str(tag)] = res
+
+            def mk(l):
+                def cb(ev):
+                    cur["st"]["calls"].append([l, canon_event(ev)])
+                return cb
+
+            for act in sched:
+                k = act[0]
+                st = dict(kind=k, puts=[], calls=[], rets={}, sess=False, anomalies=[], errors=0)
+                steps.append(st)
+                cur["st"] = st
+                nerr, nsess = len(loop.errors), len(sessions)
+                if k == "A":
+                    p.dispatcher_connect(mk(act[1]))
+                elif k == "start":
+                    ids = [tuple(c) for c in act[3]]
+                    coro = p.subscribe(ids) if act[2] == "S" else p.unsubscribe(ids)
+                    t = asyncio.ensure_future(api(act[1], coro))
+                    tasks[act[1]] = t
+                    await vloop.sleep_ticks(1)
+                    if not p.is_connected and not t.done():
+                        await asyncio.wait([t], timeout=12)        # subscribe() waits up to 10 s for a connection
+                elif k == "ans":
+                    answer(st, act[1])
+                    await vloop.sleep_ticks(1)
+                elif k == "drop":
+                    if sessions and not sessions[-1].tr.is_closing():
+                        tr = sessions[-1].tr
+                        for x in [x for x in pending if x[0] is sessions[-1]]:
+                            pending.remove(x)
+                            st["puts"].append([x[1], [list(c) for c in x[2]], "d", x[0].sid])
+                        tr.peer_fin() if act[1] == "fin" else tr.peer_reset()
+                        await vloop.sleep_ticks(1)
+                elif k == "up":
+                    if not p.is_connected:
+                        net.script.append(("connect", 0))
+                        p.connection.reconnect_soon()
+                        waited = 0
+                        while len(sessions) == nsess and waited < 130:
+                            await vloop.sleep_ticks(2048)
+                            waited += 1
+                        if len(sessions) == nsess:
+                            st["anomalies"].append("no-session")
+                        await vloop.sleep_ticks(1)
+                        # the iteration order of the subscription set as the re-subscribe saw it (subscribe() merges the
+                        # set with a copy of itself first, which may rebuild the hash table): read AFTER it started
+                        st["order"] = [list(c) for c in p.subscriptions]
+                elif k == "ev":
+                    if sessions and not sessions[-1].tr.is_closing() and p.is_connected:
+                        sessions[-1].send_event(body_bytes(["b", act[1]]))
+                        await vloop.sleep_ticks(1)
+                elif k == "drain":
+                    n = 0
+                    while pending and n < 200:
+                        answer(st, ["o"])
+                        await vloop.sleep_ticks(1)
+                        n += 1
+                st["sess"] = len(sessions) > nsess
+                st["connected"] = bool(p.is_connected)
+                st["pending"] = len(pending)
+                st["errors"] = len(loop.errors) - nerr
+                if st["errors"]:
+                    st["error_kinds"] = sorted({type(c.get("exception")).__name__ + "(" + str(c.get("exception"))[:40] + ")"
+                                                for c in loop.errors[nerr:]})
+            open_tasks = [t for t in tasks.values() if not t.done()]
+            if open_tasks:
+                steps[-1]["anomalies"].append(f"{len(open_tasks)} API calls never returned")
+            await p.shutdown()
+        finally:
+            undo1()
+            undo2()
+    try:
+        vloop.run(main)
+    except Exception as e:  # noqa
+        steps[-1]["anomalies"].append("run-aborted " + type(e).__name__ + ": " + str(e)[:80])
+    finally:
+        logging.disable(logging.NOTSET)
+    return dict(steps=steps, max_outstanding=maxpend[0])
+
+
+def conc_reply_tok(rep):
+    return "s" + "".join(f"/{a}.{i}.{x}" for a, i, x in rep[1]) if rep[0] == "s" else rep[0]
+
+
+def conc_model_line(sched, impl):
+    toks = []
+    for act, st in zip(sched, impl["steps"]):
+        k = act[0]
+        if k == "A":
+            toks.append(f"A:{act[1]}")
+        elif k == "start":
+            toks.append(f"ST:{'s' if act[2] == 'S' else 'u'}:{act[1]}:{tok_ids(act[3])}")
+        elif k == "ans":
+            toks.append("AN:" + conc_reply_tok(act[1]))
+        elif k == "drop":
+            toks.append("DR")
+        elif k == "up":
+            toks.append("UP:" + tok_ids(st.get("order", [])))
+        elif k == "ev":
+            toks.append("E:b" + "".join(f"/{a}.{i}.{v}" for a, i, v in act[1]))
+        elif k == "drain":
+            toks.append("DN")
+    return "conc R:- T:- " + " ".join(toks)
+
+
+def conc_parse(ans, n):
+    if "driver-" in ans or ans == "bad-request":
+        raise RuntimeError("model driver: " + ans[:200])
+    out = []
+    for part in ans.split(" | "):
+        outs, state = part.split(" @ ")
+        st = dict(puts=[], calls=[], rets={}, sess=False, kinds=[])
+        for t in outs.split(" "):
+            f = t.split(":")
+            st["kinds"].append("c" + (t if f[0] in ("SESS", "LOST", ".") else f[0] + (":" + f[3] if f[0] == "P" else "")))
+            if t == "SESS":
+                st["sess"] = True
+            elif f[0] == "P":
+                st["puts"].append([f[1] == "t", [list(c) for c in parse_ids(f[2])], f[3]])
+            elif f[0] == "C":
+                rows = [] if f[2] == "-" else [[int(x) for x in r.split(".")] for r in f[2].split("/")]
+                st["calls"].append([int(f[1]), sorted(rows, key=repr)])
+            elif f[0] == "RT":
+                st["rets"][f[1]] = f[2]
+        sf = state.split(" ")
+        st.update(subs=parse_ids(sf[0]), sup=sf[2] == "1", conn=sf[3] == "1", qlen=int(sf[4]), acc=parse_ids(sf[5]))
+        out.append(st)
+    if len(out) != n:
+        raise RuntimeError("conc model answer has a different number of steps")
+    return out
+
+
+def conc_compare(sched, model, impl):
+    diffs = []
+    for i, (act, m, o) in enumerate(zip(sched, model, impl["steps"])):
+        def d(field, text):
+            diffs.append((i, f"conc-{act[0]}:{field}", text))
+        for a in o["anomalies"]:
+            d("anomaly:" + a.split(" ")[0], a)
+        if o["errors"]:
+            d("loop-error", str(o.get("error_kinds")))
+        if [p[:3] for p in o["puts"]] != m["puts"]:
+            d("requests", f"answered requests: impl {[p[:3] for p in o['puts']]} model {m['puts']}")
+        if o["rets"] != m["rets"]:
+            d("results", f"returned calls: impl {o['rets']} model {m['rets']}")
+        if sorted(o["calls"], key=repr) != sorted(m["calls"], key=repr):
+            d("listener-log", f"impl {o['calls']} model {m['calls']}")
+        if o["sess"] != m["sess"]:
+            d("session", f"impl {o['sess']} model {m['sess']}")
+        if o["connected"] != m["conn"]:
+            d("connected", f"impl {o['connected']} model {m['conn']}")
+        if o["pending"] != (1 if m["qlen"] else 0):
+            d("outstanding", f"impl {o['pending']} request(s) outstanding, model queue length {m['qlen']}")
+    return diffs
+
+
+def conc_oracle(sched, impl):
+    """C12 on overlapping calls, stated on the observed log only (independent of the model):
+    one request at a time; every call returns; listeners told once per session / event; and, as long as nobody
+    unsubscribes, nothing is rejected and no request is cut off, whenever nothing is outstanding on a live session the
+    accessory has been asked (and has agreed) to notify everything the callers subscribed to."""
+    bad = []
+    if impl["max_outstanding"] > 1:
+        bad.append(("conc:requests-overlap", f"{impl['max_outstanding']} requests outstanding at once on one session", 0))
+    started, returned = set(), set()
+    listeners, wanted, acc = set(), set(), set()
+    clean = True          # no unsubscribe, rejection or cut-off so far
+    for idx, (act, o) in enumerate(zip(sched, impl["steps"])):
+        k = act[0]
+        returned |= set(o["rets"])
+        for t, r in o["rets"].items():
+            if r not in ("none", "dict", "raised"):
+                bad.append(("conc:call-failed-with-" + r.split(":")[-1], f"call {t} ended with {r}", idx))
+        by = collections.defaultdict(list)
+        for l, e in o["calls"]:
+            by[l].append(e)
+        if k == "A":
+            listeners.add(act[1])
+        elif k == "start":
+            started.add(str(act[1]))
+            if act[2] == "S":
+                wanted |= {tuple(c) for c in act[3]}
+            else:
+                clean = False
+        elif k == "up" and o["sess"]:
+            acc = set()
+            for l in sorted(listeners):
+                if by.get(l, []) != [[]]:
+                    bad.append(("conc:listener-not-notified", f"listener {l} got {by.get(l, [])} when the session came up", idx))
+        if k == "ev":
+            exp = [ref_format(act[1])]
+            for l in sorted(listeners):
+                if o["connected"] and by.get(l, []) != exp:
+                    bad.append(("conc:event-log", f"listener {l} got {by.get(l, [])}, the accessory sent {exp}", idx))
+        for ev, ids, kind, _sid in o["puts"]:
+            if kind in ("d", "x", "s"):
+                clean = False
+            elif ev:
+                acc |= {tuple(c) for c in ids}
+            else:
+                acc -= {tuple(c) for c in ids}
+        if o["errors"]:
+            bad.append(("conc:loop-error", f"exception reached the loop: {o.get('error_kinds')}", idx))
+        if k == "up" and not o["sess"] and not o["connected"]:
+            bad.append(("conc:no-session", "the connector did not establish the session the accessory accepted", idx))
+        if clean and o["connected"] and o["pending"] == 0 and k in ("drain", "ans") and not wanted <= acc:
+            bad.append(("conc:not-subscribed-at-quiescence",
+                        f"nothing is outstanding, no request was rejected or cut off and nobody unsubscribed, yet the accessory "
+                        f"was asked to notify only {sorted(acc)} of {sorted(wanted)} on this session", idx))
+    if started - returned:
+        bad.append(("conc:call-never-returned", f"calls {sorted(started - returned)} never returned", len(sched) - 1))
+    return bad
+
+
+CONC_TAIL = [["drain"], ["drop", "fin"], ["up"], ["drain"]]
+CONC_CALLS = [["S", [[1, 2], [2, 2]]], ["S", [[1, 3]]], ["S", [[2, 2], [1, 2], [2, 3]]], ["U", [[1, 2]]],
+              ["U", [[2, 2], [1, 3]]], ["S", [[3, 2]]]]
+CONC_SPECIALS = [["ans", ["s", [[1, 2, -70402], [2, 2, 0]]]], ["ans", ["d", "fin"]], ["ans", ["d", "reset"]],
+                 ["ans", ["d", "malformed"]], ["ans", ["x", 400]], ["drop", "reset"], ["ev", [[1, 2, 5], [2, 2, 6]]]]
+
+
+def gen_conc(tier, r):
+    prefix = [["A", 1], ["start", 0, "S", [[1, 2], [2, 2]]], ["up"], ["drain"]]
+    # two calls started back to back on a live session, every answer pattern with one special action at every position
+    for a in CONC_CALLS:
+        for b in CONC_CALLS:
+            starts = [["start", 1, a[0], a[1]], ["start", 2, b[0], b[1]]]
+            yield prefix + starts + CONC_TAIL
+            for pos in range(4):
+                for sp in CONC_SPECIALS:
+                    yield prefix + starts + [["ans", ["o"]]] * pos + [sp] + CONC_TAIL
+    # a call started while the connector is still re-subscribing on a new session
+    for a in CONC_CALLS:
+        for n_before in range(3):
+            for sp in [None] + CONC_SPECIALS:
+                mid = [["drop", "reset"], ["up"]] + [["ans", ["o"]]] * n_before + [["start", 1, a[0], a[1]]]
+                yield prefix + [["start", 3, "S", [[1, 3], [2, 3]]], ["drain"]] + mid + ([sp] if sp else []) + CONC_TAIL
+    # random schedules with up to four overlapping calls
+    for _ in range(600 if tier == "quick" else 12000):
+        sched, tag, up = [["A", 1]], 10, False
+        if r.random() < 0.5:
+            sched.append(["A", 2])
+        for _ in range(r.choice([4, 8, 12, 20])):
+            x = r.random()
+            if x < 0.3:
+                tag += 1
+                ids = [list(c) for c in r.sample(UNIVERSE + [(3, 2)], r.randrange(0, 4))]
+                sched.append(["start", tag, "S" if r.random() < 0.65 else "U", ids])
+            elif x < 0.62:
+                y = r.random()
+                rep = ["o"] if y < 0.7 else r.choice([a[1] for a in CONC_SPECIALS[:5]])
+                if rep[0] == "s":
+                    rep = ["s", [[*r.choice(UNIVERSE), r.choice([0, -70402])] for _ in range(r.randrange(0, 3))]]
+                sched.append(["ans", rep])
+            elif x < 0.7:
+                sched.append(["drop", r.choice(["fin", "reset"])])
+                up = False
+            elif x < 0.82:
+                sched.append(["up"])
+                up = True
+            elif x < 0.92:
+                sched.append(["ev", [[*r.choice(UNIVERSE), r.randrange(100)] for _ in range(r.choice([1, 2]))]])
+            else:
+                sched.append(["drain"])
+        yield sched + CONC_TAIL
+
+
+def run_conc_stream(ctx, drv, cov, viols, kinds_seen):
+    tier = ctx["tier"]
+    if ctx.get("replay"):
+        rp = json.load(open(ctx["replay"]))
+        if "schedule" not in rp:
+            return 0
+        scheds = [rp["schedule"]]
+    else:
+        scheds = list(gen_conc(tier, rng(ctx["seed"], "c12conc")))
+    impls = [run_impl_conc(sc) for sc in scheds]
+    answers = drv.batch([conc_model_line(sc, im) for sc, im in zip(scheds, impls)])
+    seen = set()
+    races = 0
+    for idx, (sc, im, ans) in enumerate(zip(scheds, impls, answers)):
+        model = conc_parse(ans, len(sc))
+        for m in model:
+            kinds_seen.update(set(m["kinds"]))
+        orc = conc_oracle(sc, im)
+        diffs = conc_compare(sc, model, im)
+        # the known unsubscribe/subscribe race (notes/C12.md): the caller's last call for an id was subscribe, yet it is not
+        # in the final subscription set - counted, reported in the evidence, not a violation of the modelled behaviour
+        last = {}
+        for act in sc:
+            if act[0] == "start":
+                for c in act[3]:
+                    last[tuple(c)] = act[2]
+        fin = model[-1]
+        if fin["sup"] and any(v == "S" and list(k) not in [list(c) for c in fin["subs"]] for k, v in last.items()):
+            races += 1
+        overl = max([m["qlen"] for m in model] + [0])
+        cov.case("conc" + json.dumps(sc), any(o["puts"] for o in im["steps"]),
+                 sample=dict(schedule=sc, max_queue=overl) if idx % 499 == 0 else None,
+                 conc_max_queue=overl, conc_actions=len(sc),
+                 conc_cutoffs=",".join(sorted({p[2] for o in im["steps"] for p in o["puts"] if p[2] in ("d", "x", "s")})) or "none")
+
+        def fails(c, slug=None):
+            i2 = run_impl_conc(c)
+            if slug:
+                return any(s_ == slug for s_, _, _ in conc_oracle(c, i2))
+            return bool(conc_compare(c, conc_parse(drv.batch([conc_model_line(c, i2)])[0], len(c)), i2))
+        if orc:
+            for slug in sorted({s_ for s_, _, _ in orc}):
+                if slug in seen:
+                    continue
+                seen.add(slug)
+                small = shrink_list(sc, lambda c: len(c) > 0 and fails(c, slug), budget=80)
+                i2 = run_impl_conc(small)
+                o2 = conc_oracle(small, i2)
+                text = next((t for s_, t, _ in o2 if s_ == slug), next(t for s_, t, _ in orc if s_ == slug))
+                viols.append(violation(slug, f"C12 (overlapping calls) violated by the implementation: {text}", True,
+                                       schedule=small, original_schedule=sc, oracle=[list(x) for x in o2], impl=i2["steps"],
+                                       expected="model (Model/SubsConc.v): " + drv.batch([conc_model_line(small, i2)])[0]))
+        elif diffs:
+            i, field, text = diffs[0]
+            key = f"{field}:model-mismatch"
+            if key in seen:
+                continue
+            seen.add(key)
+            small = shrink_list(sc, lambda c: len(c) > 0 and fails(c), budget=80)
+            i2 = run_impl_conc(small)
+            # does the oracle fail on the shrunk form or on a neighbour?
+            found = None
+            for cand in [small] + [small[:j] + small[j + 1:] for j in range(len(small))]:
+                oc = conc_oracle(cand, run_impl_conc(cand)) if cand else []
+                if oc:
+                    found = (cand, oc)
+                    break
+            if found:
+                viols.append(violation(found[1][0][0], "C12 (overlapping calls) violated by the implementation: " + found[1][0][1],
+                                       True, schedule=found[0], oracle=[list(x) for x in found[1]]))
+            else:
+                viols.append(violation(key, f"action {i} ({sc[i][0]}): implementation and model differ on {field}: {text}", False,
+                                       schedule=small, original_schedule=sc, impl=i2["steps"],
+                                       model=drv.batch([conc_model_line(small, i2)])[0],
+                                       broken="correspondence Model/SubsConc.v <-> IpPairing.subscribe/unsubscribe/"
+                                              "_update_subscriptions + HomeKitConnection.request (FIFO semaphore)"))
+    cov.extra["conc_schedules"] = len(scheds)
+    cov.extra["conc_unsubscribe_subscribe_race_histories"] = races
+    return len(scheds)
+
+
 def _impl_job(args):
     hist, rm, la = args
     return run_impl(hist, rm, la)
@@ -1098,7 +1526,7 @@ def run(ctx):
     viols = []
     if ctx.get("replay"):
         rp = json.load(open(ctx["replay"]))
-        cases = [(rp["history"], rp.get("rmodes", {}), rp.get("lacts", {}))]
+        cases = [(rp["history"], rp.get("rmodes", {}), rp.get("lacts", {}))] if "history" in rp else []
     else:
         depth, nrand = (2, 1500) if tier == "quick" else (3, 34000)
         cases = list(gen_exhaustive(depth))
@@ -1212,6 +1640,7 @@ def run(ctx):
             viols.append(violation("extraction-vs-vm_compute", f"{len(xbad)} of {nx} sampled requests: extracted driver and "
                                    "vm_compute of Model/Subs.v disagree", False, disagreements=xbad[:3],
                                    broken="extraction / ocaml/drv_c12.ml glue"))
+    run_conc_stream(ctx, drv, cov, viols, kinds_seen)
     cov.extra["model_output_kinds_seen"] = dict(kinds_seen)
     cov.extra["reconnect_nudges_design_6o"] = nudges
     cov.extra["domain"] = ("replies to PUT /characteristics: 204, 207 with status rows, HTTP 4xx, or a cut-off (FIN, RST, "
